@@ -123,7 +123,59 @@ def check_requirement(F, f, block, req):
         if must_pass(f, starts, B, C):
             return True, ""
         return False, f"a path from `{a}` reaches `{c}` without `{b_}`"
+    if kind == "gt0":
+        var = parts[1]
+        from cfgq import bool_edges
+        for i, j, st in f.iter_stmts():
+            rv = st.get("rv", {})
+            if rv.get("k") != "bin" or rv["op"] not in ("Gt", "Ne", "Eq", "Ge", "Lt", "Le"):
+                continue
+            lp = rv["l"].get("copy") or rv["l"].get("move")
+            c = rv["r"].get("const", {})
+            if lp is None or lp["p"] or f.local_name(lp["l"]) != var and _src_name(f, lp["l"]) != var:
+                continue
+            if c.get("bits") not in ("0", "1"):
+                continue
+            te, fe = bool_edges(f, st["place"]["l"])
+            pos = te if (rv["op"], c.get("bits")) in (("Gt", "0"), ("Ne", "0"), ("Ge", "1")) else (fe if (rv["op"], c.get("bits")) in (("Eq", "0"), ("Le", "0"), ("Lt", "1")) else [])
+            if any(f.edge_dominates(e, block) for e in pos):
+                return True, ""
+        return False, f"the site is reachable without `{var} > 0` having been established"
+    if kind == "counter":
+        fld = "." + parts[1]
+        from cfgq import bool_edges
+        writes = [(i, st) for i, j, st in f.iter_stmts() if st["k"] == "assign" and st["place"]["p"] and st["place"]["p"][-1] == fld]
+        if not writes:
+            return False, "the counter is never written"
+        # comparison `counter == LEN - 1`
+        eqs = []
+        for i, j, st in f.iter_stmts():
+            rv = st.get("rv", {})
+            if rv.get("k") == "bin" and rv["op"] == "Eq":
+                lt, rt = show(resolve(f, rv["l"]), -50), show(resolve(f, rv["r"]), -50)
+                if fld in lt and "Sub" in rt and "len" in rt.lower() or fld in rt and "Sub" in lt and "len" in lt.lower():
+                    eqs.append(st["place"]["l"])
+        for i, st in writes:
+            from flow import resolve_rvalue
+            e = resolve_rvalue(f, st["rv"], 0, frozenset(), i)
+            txt = show(e, -50)
+            if e[0] == "const" and e[1].get("bits") == "0":
+                continue
+            inc = "Add" in txt and fld in txt
+            guarded = any(any(f.edge_dominates(ed, i) for ed in bool_edges(f, d)[1]) for d in eqs)
+            if not (inc and guarded):
+                return False, f"the counter is written with `{txt[:60]}` on a path where it was not known to be below the last index"
+        return True, ""
     return False, f"unknown requirement {req}"
+
+
+def _src_name(f, l):
+    ds = f.defs.get(l, [])
+    if len(ds) == 1 and ds[0][0] == "stmt" and ds[0][3]["rv"]["k"] == "use":
+        p = ds[0][3]["rv"]["op"].get("copy") or ds[0][3]["rv"]["op"].get("move")
+        if p is not None and not p["p"]:
+            return f.local_name(p["l"])
+    return None
 
 
 def is_box_deref_site(F, s):
@@ -162,6 +214,65 @@ def _is_box_ptr(f, l):
     rv = ds[0][3]["rv"]
     return rv["k"] == "cast" and rv["kind"] == "Transmute" and "NonNull<" in rv["from"] and \
         (rv["op"].get("copy") or rv["op"].get("move") or {"p": []})["p"][-1:] == [".pointer"]
+
+
+# =================================================================================================
+# D4 index / slice sites
+def index_sites(F: Facts):
+    for k in sorted(F.funcs):
+        f = F.funcs[k]
+        if f.crate not in CRATES or f.generated:
+            continue
+        if f.kind.startswith(("Const", "AssocConst", "Static", "AnonConst", "InlineConst")):
+            continue
+        region = region_of(k)
+        for b, t in f.iter_terms("assert"):
+            if t["akind"] == "bounds" and not any("vec" in m for m in t.get("macros", [])):
+                yield dict(region=region, kind="bounds", where=f.where(b), func=k, block=b)
+        for b, t in f.calls():
+            ck = callee_key(t) or ""
+            if ("ops::Index" in ck or "ops::IndexMut" in ck) and not t.get("macros"):
+                a = t["callee"].get("rargs") or t["callee"].get("args") or []
+                kind = "slice" if any("Range" in x for x in a) else "index"
+                cont = "str" if "for str" in ck else ("map" if ("HashMap" in ck or "EnumMap" in ck or "enum_map" in ck or "BTreeMap" in ck or "Mapping" in ck) else "vec")
+                if cont == "map":
+                    continue
+                yield dict(region=region, kind=f"{kind}:{cont}", where=f.where(b), func=k, block=b)
+
+
+def d4_index(chk, F, pid="C03", only_regions=None):
+    tab = load("index_sites.toml")
+    table = {(e["function"], e["kind"]): e for e in tab.get("site", [])}
+    groups = defaultdict(list)
+    for s_ in index_sites(F):
+        groups[(s_["region"], s_["kind"])].append(s_)
+    rule = f"{pid}.D4-index"
+    n = 0
+    for (region, kind), ss in sorted(groups.items()):
+        if only_regions is not None and region not in only_regions:
+            continue
+        n += len(ss)
+        key = f"{region}|{kind}"
+        e = table.get((region, kind))
+        where = ss[0]["where"]
+        if e is None:
+            chk.fail(rule, key, where, f"unreviewed {kind} indexing in {region} ({len(ss)} site(s): {', '.join(x['where'] for x in ss)}): "
+                     "an out-of-range index or a non-boundary string slice panics")
+            continue
+        if len(ss) > e["count"]:
+            chk.fail(rule, key, where, f"{len(ss)} {kind} site(s) in {region}, reviewed inventory has {e['count']} ({', '.join(x['where'] for x in ss)})")
+            continue
+        chk.ok(rule, key, f"{where}: {kind} ×{len(ss)} — {e['reason']}")
+        for req in e.get("requires", []):
+            hits = [check_requirement(F, F.funcs[x["func"]], x["block"], req) for x in ss]
+            # a requirement names the guard of the site(s) it was written for: at least one site of the group must satisfy it,
+            # and for single-site groups that site
+            ok = all(h[0] for h in hits) if len(ss) == 1 else any(h[0] for h in hits)
+            why = next((h[1] for h in hits if not h[0]), "")
+            chk.expect(ok, f"{pid}.D4-discharge", f"{key}|{req}", where,
+                       f"the invariant that keeps this {kind} access in range no longer holds ({req}): {why} — reviewed reason: {e['reason']}",
+                       sample=f"{where}: {kind} in range by {req}")
+    return n
 
 
 # =================================================================================================
@@ -256,6 +367,12 @@ def d2_arith(chk, F, pid="C03", only_regions=None):
             chk.fail(rule, key, where, f"reviewed as a defect: {e['reason']}")
         else:
             chk.ok(rule, key, f"{where}: {kind} {detail} ×{len(ss)} — {e['reason']}")
+            for req in e.get("requires", []):
+                for s_ in ss:
+                    okr, why = check_requirement(F, F.funcs[s_["func"]], s_["block"], req)
+                    chk.expect(okr, f"{pid}.D2-discharge", f"{key}|{req}", s_["where"],
+                               f"the guard that keeps `{kind}` from overflowing no longer holds ({req}): {why} — reviewed reason: {e['reason']}",
+                               sample=f"{s_['where']}: {kind} guarded by {req}")
     return n
 
 
@@ -804,7 +921,7 @@ def run(chk: harness.Check):
         "sum/product is reviewed in tables/narrow_arith.toml; D3 every CFG loop is driven by a finite std iterator or every one of "
         "its cycles passes through the reviewed progress construct of tables/progress.toml, and every recursion cycle is preceded "
         "by its progress call. This decides that the set of ways the library can fail to return is the reviewed set — not that it never fails: "
-        "bounds checks, slicing and usize additions are counted but not armed.")
+        "index and slice sites are an armed inventory (D4, tables/index_sites.toml) whose entries carry machine-checked dominance requirements where the invariant is local; usize additions are counted only.")
     chk.trusted = ["rustc MIR (dev profile: overflow checks and debug assertions present)",
                    "macro-generated items (derive, bitflags, thiserror, strum, uniffi scaffolding) trusted by origin",
                    "std/dependency internals (serde_yaml, codesnake) out of scope", "tables/*.toml are the reviewed reference"]
@@ -814,6 +931,8 @@ def run(chk: harness.Check):
     chk.floor("C03.D2-arith", "integer arithmetic sites", n_arith, 25)
     stats = d3_progress(chk, F)
     chk.floor("C03.D3-progress", "loops analysed", stats["ITER"] + stats["TABLE"], 60)
+    n_idx = d4_index(chk, F)
+    chk.floor("C03.D4-index", "index / slice sites", n_idx, 80)
     # census (not armed)
     census = Counter()
     for k, f in F.funcs.items():
